@@ -717,6 +717,8 @@ func dischargeAll(exs []*Exec, opts dischargeOpts) {
 	}
 	var jobs []job
 	for _, ex := range exs {
+		// make every lazily declared symbol exist before the parallel phase
+		ex.globalAxioms()
 		for _, n := range ex.ObOrd {
 			jobs = append(jobs, job{ex, ex.Obs[n]})
 		}
